@@ -444,6 +444,7 @@ var handPatterns = []string{
 	`^Upload$`, `(?i)^task$`, `(?i)^stra\x{00df}e$`, `\A\d+foo`, `foo\d*\z`, `s(?:.*elect|leep)`, `s(?:p_.*longer(?:a1|b2)|leep)`,
 	`(?i:select).*FROM`, `[Uu]nion.*SELECT`, `^[^\x00-\x7f]+$`, `id=[^\x00-\x{7ff}]`, `(?i)union\s+select`, `\bunion\b`, `a(b)?c`, `(a|ab)(c|bcd)(d*)`,
 	`^(?:GET|POST)$`, `(?i)^(?:get|post)$`, `^\s*$`, `^$`, `.`, `(?s).`, `(?m)^x$`, `x$`, `\Ax\z`, `(?i)k`, `(?i)s+`, `é`, `(?i)É`, `\xff`, `[\x80-\xff]`,
+	`(^admin$)`, `(?i)(^admin$)`, `((^root$))`, `(\Aadmin\z)`, `^(admin)$`, `(^li(t)$)`, `(?i)xp_\w+`, `(?i)admin@.*corp`, `(?i)arr\[\d+\]`, `(?i)\$_(?:get|post)`, `(?i)a\^b.*c`, `(?i)x\\y+`, `(?i)p\]q*`,
 	`(foo|foobar)baz`, `(?:foo)?bar`, `ab*c+d?`, `(?i)a.c`, `a\nb`, `(?-s)a.b`, `^a|b$`, `(^a|b)c`, `a{2,3}b`, `(?i)ß`, `select.{0,5}from`,
 }
 
